@@ -60,6 +60,11 @@ def str_method(name, recv, *args, **kw):
         return (mk_str(head), mk_str(mid), mk_str(tail))
     if name == 'find':
         return mk_int(z3.IndexOf(r, _s(args[0]), 0))
+    if name == 'index':
+        i = z3.IndexOf(r, _s(args[0]), 0)
+        if not ctx().branch(i >= 0, 'str-index-found'):
+            raise ValueError('substring not found')
+        return mk_int(i)
     if name == 'format':
         if not isinstance(recv, str):
             raise OutOfSubset('symbolic format string')
